@@ -8,7 +8,7 @@ import sys, os, subprocess, shutil, json, glob, concurrent.futures as cf
 ROOT = "/verif"
 SCRATCH = os.environ.get("VERIF_SCRATCH", "/var/tmp/verif-scratch")
 flt = [a for a in sys.argv[1:] if not a.startswith("-")]
-jobs = 12
+jobs = int(os.environ.get("SELFTEST_JOBS", "12"))
 RESULTS = {}
 claimed = {c["property_id"] for c in json.load(open(ROOT + "/MANIFEST.json"))["checks"]}
 
@@ -19,7 +19,8 @@ def cases():
         exp = first[len("# expect:"):].split()
         name = os.path.basename(p)[:-6]
         if exp[0] == "neutral":
-            yield name, p, "neutral", (sorted(claimed) if exp[1] == "ALL" else exp[1].split(",")), ""
+            allp = os.environ.get("SELFTEST_NEUTRAL_PROPS", "").split() or sorted(claimed)  # developer shortcut: a subset
+            yield name, p, "neutral", (allp if exp[1] == "ALL" else exp[1].split(",")), ""
         else:
             yield name, p, "violation", [exp[0]], " ".join(exp[1:])
     for d in sorted(glob.glob(ROOT + "/seeded/*/")):
@@ -63,6 +64,9 @@ def run(case):
             okall &= good
             res.append(f"{prop}: {'fired' if fired else 'silent'} rc={r.returncode} " + " / ".join(v[:160] for v in viol[:3]))
         RESULTS[name] = {"kind": kind, "expected": props, "as_expected": bool(okall), "fired": fired_rules}
+        if os.environ.get("SELFTEST_OUT"):  # incremental record, one JSON line per case (merged by scripts/mergeselftest.py)
+            with open(os.environ["SELFTEST_OUT"], "a") as fh:
+                fh.write(json.dumps({name: RESULTS[name]}, sort_keys=True) + "\n")
         return name, ("OK " if okall else "MISS") + f" [{kind}]", "\n     ".join(res)
     finally:
         shutil.rmtree(d, ignore_errors=True)
@@ -70,6 +74,11 @@ def run(case):
 if not os.environ.get("OAPSA_BIN"):
     subprocess.check_call([ROOT + "/scripts/setup.sh"], stdout=subprocess.DEVNULL)
 cs = [c for c in cases() if not flt or any(f in c[0] for f in flt)]
+if os.environ.get("SELFTEST_OUT") and os.path.exists(os.environ["SELFTEST_OUT"]):  # resume: skip what is recorded
+    done = set()
+    for l in open(os.environ["SELFTEST_OUT"]):
+        done.update(json.loads(l).keys())
+    cs = [c for c in cs if c[0] not in done]
 bad = 0
 with cf.ThreadPoolExecutor(jobs) as ex:
     for name, verdict, detail in ex.map(run, cs):
